@@ -335,6 +335,10 @@ def _anc(prog_nodes, r, nid):
 def evaluate(prog, run, val, extra_kwargs=None):
     r = Ref(prog, run, val, extra_kwargs)
     r.run_program()
+    if any(v > 0 for v in r.rec_iters.values()):
+        r.dyn.add('rec_iterates')
+    if r.losers:
+        r.dyn.add('cand_fail')
     if r.losers:
         for c in r.tried:
             a = _anc(prog['nodes'], r, c)
